@@ -610,6 +610,52 @@ Proof.
   - cbn [up_node] in E. exact E.
 Qed.
 
+Lemma pokb_pok q : forall m, pokb d m q = true -> pok m q.
+Proof.
+  induction q as [|[i e] q IH]; intros m H; [exact I|]. cbn [pokb] in H. cbn [pok].
+  destruct (find_binst (bm_insts m) i) as [x|]; [|discriminate]. apply andb_prop in H. destruct H as [He H].
+  destruct (bi_of x) as [k|] eqn:Hof; [|discriminate]. destruct (nth_error (bd_mods d) k) as [m'|] eqn:Hk; [|discriminate].
+  exists x, k, m'. repeat split; auto. intros Px. rewrite Px in He. cbn [negb orb] in He. lia.
+Qed.
+
+Lemma node_path_ok_pokp n : node_path_ok d n = true -> match n with NBSig p _ _ _ | NBPort p _ _ _ _ _ => pokp p | NBNc _ _ _ => True end.
+Proof.
+  destruct n as [p s mp k|p i e port mp k|p s k]; cbn [node_path_ok]; intros H; try exact I;
+    (destruct (nth_error (bd_mods d) (bd_top d)) as [top|] eqn:Ht; [|discriminate]; exists top; split; [exact Ht|apply pokb_pok; exact H]).
+Qed.
+
+(* the image of a node of the design is a node of the design the pass leaves *)
+Lemma target_sports_same t : target_sports d1 t = target_sports d t.
+Proof.
+  destruct t as [k|dev ps]; [|reflexivity]. cbn [target_sports]. destruct (nth_error (bd_mods d) k) as [c|] eqn:Hk.
+  - destruct (ib_nth k c Hk) as [c1 [Hk1 Hc]]. rewrite Hk1. destruct (ib_same c c1 Hc) as [_ [Hp [_ [Hb _]]]]. unfold mod_sports. rewrite Hp, Hb. reflexivity.
+  - rewrite (ib_nth_none k Hk). reflexivity.
+Qed.
+
+Lemma bnode_ok_up n : nodeS n -> bnode_ok d1 (up_node d n) = true.
+Proof.
+  intros [Hl Hp]. pose proof (live_ok n Hl) as Hok. destruct n as [p s mp k|p i e port mp k|p s k]; cbn [bnode_ok] in Hok.
+  - rewrite up_sig. cbn [bnode_ok]. destruct (bmod_at d p) as [m|] eqn:Hm; [|discriminate].
+    destruct (bmod_at_up p m Hp Hm) as [m1 [Hm1 [Hibm _]]]. rewrite Hm1. destruct (ib_same m m1 Hibm) as [_ [Hps [Hss [Hbs _]]]].
+    unfold mod_sports, mod_ssigs in *. rewrite Hps, Hss, Hbs. exact Hok.
+  - destruct (bmod_at d p) as [m|] eqn:Hm; [|discriminate]. destruct (find_binst (bm_insts m) i) as [x|] eqn:Hx; [|discriminate].
+    apply andb_prop in Hok. destruct Hok as [Hit Hee]. rewrite (up_port p m i e port mp k Hm). cbn [bnode_ok].
+    destruct (bmod_at_up p m Hp Hm) as [m1 [Hm1 [Hibm HmIn]]]. rewrite Hm1. destruct (pw_mod m HmIn) as [NDm _].
+    destruct (bi_pair x) eqn:Px.
+    + assert (He : e = 0 \/ e = 1) by (cbn [negb orb] in Hee; lia).
+      destruct (ib_find_pair m m1 Hibm NDm i x e Hx Px He) as [nm [cs [pn [nms [U [_ [F _]]]]]]]. rewrite U. cbn [fst snd]. rewrite F.
+      cbn [pair_member bi_of bi_pair negb orb]. rewrite target_sports_same, Hit. reflexivity.
+    + rewrite (up_elem_single_aux m i e x Hx Px). cbn [fst snd]. rewrite (ib_find_single m m1 Hibm i x Hx Px), Px, target_sports_same, Hit. reflexivity.
+  - reflexivity.
+Qed.
+
+Lemma live_up x : nodeS x -> live d1 (up_node d x).
+Proof.
+  intros Hx n. revert x Hx. induction n as [|n IH]; intros x Hx; cbn [iter_r].
+  - exists (up_node d x). split; [reflexivity|apply bnode_ok_up; exact Hx].
+  - destruct (nodeS_step x Hx) as [y [Hy Sy]]. rewrite (ib_step x y Hx Hy). cbn [bind]. apply IH. exact Sy.
+Qed.
+
 (* InstBundleElabPass keeps "the orbits meet", both ways *)
 Theorem ib_meet x y : nodeS x -> nodeS y -> (bsame_net d x y <-> bsame_net d1 (up_node d x) (up_node d y)).
 Proof.
